@@ -19,6 +19,7 @@ import RegexVerif.Lemmas.Scan
 import RegexVerif.Lemmas.Finders
 import RegexVerif.Lemmas.BoyerMooreScan
 import RegexVerif.Lemmas.StringFilter
+import RegexVerif.Lemmas.IndexOf
 import RegexVerif.Props.C04
 
 namespace RegexVerif.Props.C03
@@ -996,5 +997,349 @@ example : prefixFilterBody [97, 0xEF, 0xBF, 0xBD] false 2 [120, 97, 0xFF, 121] 0
     occursAt eqExact (runesOf [97, 0xEF, 0xBF, 0xBD]) (runesOf [120, 97, 0xFF, 121]) 1 = true := by decide
 
 end StringFilters
+
+/-! ## ─── the rune-slice searches of `helpers/indexof.go` (slice "indexof") ───
+
+The candidate finders above are proved against SPECIFIED searches (`findUp`: the first index at which a test
+holds).  `Model/IndexOf.lean` mirrors the Go loops themselves, line by line (`none` = the Go function panics);
+below, every mirror is proved to return the FIRST (LAST) index satisfying its documented test, `-1` exactly when
+there is none, without a panic under the precondition its callers guarantee — and the finders are restated over
+the mirrored calls (`…_uses_…`), so that `finder_*_sound` rest on the loops of `indexof.go`, not on a
+specification of them.  Leg Ix ties the mirrors to the Go functions.
+
+`FirstIdx P r` / `LastIdx P r`: `r = -1` and `P` holds nowhere, or `r` is an index with `P r` and `P` holds at no
+smaller (larger) index.  `RuneAt inp Q i`: `inp[i]` exists and satisfies `Q`.  `SubAt inp find i`:
+`inp[i : i+len(find)] = find`. -/
+section IndexOfHelpers
+open RegexVerif.IndexOf RegexVerif.Lemmas.IndexOf
+
+/-- **`helpers.IndexOfAny(in, find)`**: the first index whose rune is one of `find`; `-1` when there is none (in
+    particular for an empty `find`); never panics. -/
+theorem indexOfAny_spec (inp find : List Nat) :
+    ∃ r, indexOfAny inp find = some r ∧ FirstIdx (RuneAt inp (· ∈ find)) r :=
+  ⟨_, indexOfAny_eq inp find, rangeLoop_firstP _ _ (fun c => by simp) inp⟩
+
+example : indexOfAny [120, 98, 97] [97, 98] = some 1 ∧ indexOfAny [120] [97, 98] = some (-1) ∧
+    indexOfAny [97] [] = some (-1) := by decide
+
+/-- **`helpers.IndexOfAny1(in, find)`**: the first index holding `find`. -/
+theorem indexOfAny1_spec (inp : List Nat) (find : Nat) :
+    ∃ r, indexOfAny1 inp find = some r ∧ FirstIdx (RuneAt inp (· = find)) r :=
+  ⟨_, rfl, rangeLoop_firstP _ _ (fun c => by simp) inp⟩
+
+example : indexOfAny1 [120, 97, 97] 97 = some 1 ∧ indexOfAny1 [120] 97 = some (-1) ∧ indexOfAny1 [] 97 = some (-1) := by
+  decide
+
+/-- **`helpers.IndexOfAny2(in, find1, find2)`**: the first index holding one of the two runes. -/
+theorem indexOfAny2_spec (inp : List Nat) (find1 find2 : Nat) :
+    ∃ r, indexOfAny2 inp find1 find2 = some r ∧ FirstIdx (RuneAt inp (fun c => c = find1 ∨ c = find2)) r :=
+  ⟨_, rfl, rangeLoop_firstP _ _ (fun c => by simp) inp⟩
+
+example : indexOfAny2 [120, 98, 97] 97 98 = some 1 ∧ indexOfAny2 [120] 97 98 = some (-1) := by decide
+
+/-- **`helpers.IndexOfAny3(in, find1, find2, find3)`**: the first index holding one of the three runes. -/
+theorem indexOfAny3_spec (inp : List Nat) (find1 find2 find3 : Nat) :
+    ∃ r, indexOfAny3 inp find1 find2 find3 = some r ∧
+      FirstIdx (RuneAt inp (fun c => c = find1 ∨ c = find2 ∨ c = find3)) r :=
+  ⟨_, rfl, rangeLoop_firstP _ _ (fun c => by simp [or_assoc]) inp⟩
+
+example : indexOfAny3 [120, 99, 97] 97 98 99 = some 1 ∧ indexOfAny3 [120] 97 98 99 = some (-1) := by decide
+
+/-- **`helpers.IndexOfAnyInRange(in, first, last)`**: the first index whose rune lies in `first..last` (both ends
+    included). -/
+theorem indexOfAnyInRange_spec (inp : List Nat) (first last : Nat) :
+    ∃ r, indexOfAnyInRange inp first last = some r ∧ FirstIdx (RuneAt inp (fun c => first ≤ c ∧ c ≤ last)) r :=
+  ⟨_, rfl, rangeLoop_firstP _ _ (fun c => by simp) inp⟩
+
+example : indexOfAnyInRange [96, 97, 122, 123] 97 122 = some 1 ∧ indexOfAnyInRange [123, 122] 97 122 = some 1 ∧
+    indexOfAnyInRange [96, 123] 97 122 = some (-1) := by decide
+
+/-- **`helpers.IndexOfAnyExcept(in, bad)`**: the first index whose rune is NOT one of `bad` (the inner loop with
+    its `found` flag is mirrored). -/
+theorem indexOfAnyExcept_spec (inp bad : List Nat) :
+    ∃ r, indexOfAnyExcept inp bad = some r ∧ FirstIdx (RuneAt inp (fun c => c ∉ bad)) r :=
+  ⟨_, rfl, rangeLoop_firstP _ _ (fun c => by simp [foundIn_eq]) inp⟩
+
+example : indexOfAnyExcept [97, 98, 120] [98, 97] = some 2 ∧ indexOfAnyExcept [97, 98] [98, 97] = some (-1) ∧
+    indexOfAnyExcept [97] [] = some 0 := by decide
+
+/-- **`helpers.IndexOfAnyExcept1(in, bad)`**: the first index not holding `bad`. -/
+theorem indexOfAnyExcept1_spec (inp : List Nat) (bad : Nat) :
+    ∃ r, indexOfAnyExcept1 inp bad = some r ∧ FirstIdx (RuneAt inp (· ≠ bad)) r :=
+  ⟨_, rfl, rangeLoop_firstP _ _ (fun c => by simp) inp⟩
+
+example : indexOfAnyExcept1 [97, 97, 120] 97 = some 2 ∧ indexOfAnyExcept1 [97, 97] 97 = some (-1) := by decide
+
+/-- **`helpers.IndexOfAnyExcept2(in, bad1, bad2)`**: the first index holding neither rune. -/
+theorem indexOfAnyExcept2_spec (inp : List Nat) (bad1 bad2 : Nat) :
+    ∃ r, indexOfAnyExcept2 inp bad1 bad2 = some r ∧ FirstIdx (RuneAt inp (fun c => c ≠ bad1 ∧ c ≠ bad2)) r :=
+  ⟨_, rfl, rangeLoop_firstP _ _ (fun c => by simp) inp⟩
+
+example : indexOfAnyExcept2 [97, 98, 120] 97 98 = some 2 ∧ indexOfAnyExcept2 [98, 97] 97 98 = some (-1) := by decide
+
+/-- **`helpers.IndexOfAnyExcept3(in, bad1, bad2, bad3)`**: the first index holding none of the three runes. -/
+theorem indexOfAnyExcept3_spec (inp : List Nat) (bad1 bad2 bad3 : Nat) :
+    ∃ r, indexOfAnyExcept3 inp bad1 bad2 bad3 = some r ∧
+      FirstIdx (RuneAt inp (fun c => c ≠ bad1 ∧ c ≠ bad2 ∧ c ≠ bad3)) r :=
+  ⟨_, rfl, rangeLoop_firstP _ _ (fun c => by simp [and_assoc]) inp⟩
+
+example : indexOfAnyExcept3 [97, 99, 120] 97 98 99 = some 2 ∧ indexOfAnyExcept3 [99, 97] 97 98 99 = some (-1) := by decide
+
+/-- **`helpers.IndexOfAnyExceptInRange(in, first, last)`**: the first index whose rune lies OUTSIDE `first..last`
+    (the two `if`s — above `last`, below `first` — are mirrored). -/
+theorem indexOfAnyExceptInRange_spec (inp : List Nat) (first last : Nat) :
+    ∃ r, indexOfAnyExceptInRange inp first last = some r ∧
+      FirstIdx (RuneAt inp (fun c => ¬ (first ≤ c ∧ c ≤ last))) r :=
+  ⟨_, rfl, rangeLoop_firstP _ _ (fun c => by
+    by_cases h1 : c > last
+    · simp [h1]
+    · by_cases h2 : c < first
+      · simp [h1, h2]
+      · simp [h1, h2]) inp⟩
+
+example : indexOfAnyExceptInRange [97, 122, 123] 97 122 = some 2 ∧ indexOfAnyExceptInRange [122, 96] 97 122 = some 1 ∧
+    indexOfAnyExceptInRange [97, 122] 97 122 = some (-1) := by decide
+
+/-- **`helpers.IndexFunc(in, f)`**: the first index whose rune passes `f`. -/
+theorem indexFunc_spec (inp : List Nat) (f : Nat → Bool) :
+    ∃ r, indexFunc inp f = some r ∧ FirstIdx (RuneAt inp (fun c => f c = true)) r :=
+  ⟨_, rfl, rangeLoop_firstP _ _ (fun _ => Iff.rfl) inp⟩
+
+example : indexFunc [96, 98, 97] (· % 2 == 1) = some 2 ∧ indexFunc [96] (· % 2 == 1) = some (-1) := by decide
+
+/-- **`helpers.LastIndexOfAny1(in, find)`**: the LAST index holding `find`; the loop starts at `len(in) - 1` and
+    never reads outside the slice. -/
+theorem lastIndexOfAny1_spec (inp : List Nat) (find : Nat) :
+    ∃ r, lastIndexOfAny1 inp find = some r ∧ LastIdx (RuneAt inp (· = find)) r :=
+  downLoop_lastP _ _ (fun c => by simp) inp
+
+example : lastIndexOfAny1 [97, 120, 97, 120] 97 = some 2 ∧ lastIndexOfAny1 [120, 97] 97 = some 1 ∧
+    lastIndexOfAny1 [120] 97 = some (-1) ∧ lastIndexOfAny1 [] 97 = some (-1) := by decide
+
+/-- **`helpers.LastIndexOfAnyExcept1(in, not)`**: the last index not holding `not`. -/
+theorem lastIndexOfAnyExcept1_spec (inp : List Nat) (not : Nat) :
+    ∃ r, lastIndexOfAnyExcept1 inp not = some r ∧ LastIdx (RuneAt inp (· ≠ not)) r :=
+  downLoop_lastP _ _ (fun c => by simp) inp
+
+example : lastIndexOfAnyExcept1 [120, 97, 97] 97 = some 0 ∧ lastIndexOfAnyExcept1 [97, 120] 97 = some 1 ∧
+    lastIndexOfAnyExcept1 [97] 97 = some (-1) := by decide
+
+/-- **`helpers.LastIndexOfAnyInRange(in, first, last)`**: the last index whose rune lies in `first..last`. -/
+theorem lastIndexOfAnyInRange_spec (inp : List Nat) (first last : Nat) :
+    ∃ r, lastIndexOfAnyInRange inp first last = some r ∧ LastIdx (RuneAt inp (fun c => first ≤ c ∧ c ≤ last)) r :=
+  downLoop_lastP _ _ (fun c => by simp) inp
+
+example : lastIndexOfAnyInRange [97, 122, 123] 97 122 = some 1 ∧ lastIndexOfAnyInRange [96, 123] 97 122 = some (-1) := by
+  decide
+
+/-- **`helpers.IndexOf(in, find)`** for a non-empty `find` (the Go code reads `find[0]`; its comment: "Since we
+    auto-gen the find code this shouldn't happen"): the FIRST index at which `find` lies in `in` as a contiguous
+    sub-slice, `-1` when it lies nowhere; the loop bound `i <= len(in) - len(find)` loses no position and reads
+    nothing outside the slice. -/
+theorem indexOf_first (inp find : List Nat) (hne : find ≠ []) :
+    ∃ r, indexOf inp find = some r ∧ FirstIdx (SubAt inp find) r :=
+  ⟨_, indexOf_eq inp find hne, (sub_firstIdx eqExact inp find hne).congr fun i => occursAt_exact find inp i⟩
+
+example : indexOf [120, 97, 97, 98, 97, 98] [97, 98] = some 2 ∧ indexOf [97, 98] [97, 98] = some 0 ∧
+    indexOf [120, 97, 98] [97, 98] = some 1 ∧ indexOf [97, 97] [97, 98] = some (-1) ∧ indexOf [97] [97, 98] = some (-1) ∧
+    indexOf [] [97] = some (-1) := by decide
+
+/-- **`helpers.LastIndexOf(in, find)`** for a non-empty `find`: the LAST index at which `find` lies in `in`; the
+    loop starts at `len(in) - len(find)`, the two-rune pre-check (`first`, `last`) rejects no occurrence. -/
+theorem lastIndexOf_spec (inp find : List Nat) (hne : find ≠ []) :
+    ∃ r, lastIndexOf inp find = some r ∧ LastIdx (SubAt inp find) r := by
+  obtain ⟨r, hr, hl⟩ := lastIndexOf_last inp find hne
+  exact ⟨r, hr, hl.congr fun i => occursAt_exact find inp i⟩
+
+example : lastIndexOf [97, 98, 97, 98, 120] [97, 98] = some 2 ∧ lastIndexOf [120, 97, 98] [97, 98] = some 1 ∧
+    lastIndexOf [97, 98, 120] [97, 98] = some 0 ∧ lastIndexOf [97, 97] [97, 98] = some (-1) ∧
+    lastIndexOf [97] [97, 98] = some (-1) := by decide
+
+/-- **What "occurs under a comparison" means** (`occursAt eq find in i`, the vocabulary of the finder theorems):
+    the needle fits from `i` and every rune of it is matched by the text rune at the same offset. -/
+theorem occursAt_iff_pointwise (eq : Nat → Nat → Bool) (find inp : List Nat) (i : Nat) (hi : i ≤ inp.length) :
+    occursAt eq find inp i = true ↔
+      (i + find.length ≤ inp.length ∧
+        ∀ j, j < find.length → ∃ t c, inp[i + j]? = some t ∧ find[j]? = some c ∧ eq t c = true) :=
+  occursAt_pointwise eq find inp i hi
+
+example : occursAt (eqLower id) [97, 98] [120, 97, 98] 1 = true ∧ occursAt (eqLower id) [97, 98] [120, 97] 1 = false := by
+  decide
+
+/-- **`helpers.IndexOfIgnoreCase(in, find)`** for a non-empty `find`, relative to the oracle `lower` =
+    `unicode.ToLower`: the first index at which every rune of `find` equals the text rune or its `ToLower`
+    (`eqLower`: `t == c || lower t == c`; the needle is NOT lowered — "find should always be sent in lower-case"). -/
+theorem indexOfIgnoreCase_spec (lower : Nat → Nat) (inp find : List Nat) (hne : find ≠ []) :
+    ∃ r, indexOfIgnoreCase lower inp find = some r ∧ FirstIdx (fun i => occursAt (eqLower lower) find inp i = true) r :=
+  ⟨_, indexOfIgnoreCase_eq lower inp find hne, sub_firstIdx _ inp find hne⟩
+
+example : indexOfIgnoreCase (fun c => if c = 0x212A then 107 else c) [120, 75, 0x212A, 98] [107, 98] = some 2 ∧
+    indexOfIgnoreCase id [65, 98] [97, 98] = some (-1) ∧ indexOfIgnoreCase bmLower [65, 66] [97, 98] = some 0 := by decide
+
+/-- **`helpers.IndexOfIgnoreCaseAscii(in, find)`**: the first index at which `find` lies under ASCII case folding
+    of BOTH sides (`foldASCII`: `A..Z` ↦ `a..z`, everything else unchanged); `0` for an empty `find`; never panics. -/
+theorem indexOfIgnoreCaseAscii_spec (inp find : List Nat) :
+    (find = [] → indexOfIgnoreCaseAscii inp find = some 0) ∧
+    (find ≠ [] → ∃ r, indexOfIgnoreCaseAscii inp find = some r ∧
+      FirstIdx (fun i => occursAt eqAsciiFold find inp i = true) r) :=
+  ⟨fun h => by subst h; rfl, fun hne => ⟨_, indexOfIgnoreCaseAscii_eq inp find hne, sub_firstIdx _ inp find hne⟩⟩
+
+example : indexOfIgnoreCaseAscii [120, 65, 90, 97, 122] [97, 90] = some 1 ∧
+    indexOfIgnoreCaseAscii [64, 91] [96, 123] = some (-1) ∧ indexOfIgnoreCaseAscii [0x212A] [107] = some (-1) := by decide
+
+/-- **`helpers.StartsWith(in, find)`** for a non-empty `find`: `true` exactly when `in` begins with `find`. -/
+theorem startsWith_spec (inp find : List Nat) (hne : find ≠ []) :
+    ∃ b, startsWith inp find = some b ∧ (b = true ↔ SubAt inp find 0) :=
+  ⟨_, startsWith_eq inp find hne, occursAt_exact find inp 0⟩
+
+example : startsWith [97, 98, 120] [97, 98] = some true ∧ startsWith [97, 120] [97, 98] = some false ∧
+    startsWith [97] [97, 98] = some false := by decide
+
+/-- **An empty needle makes the exact searches PANIC** (`find[0]`, `&find[0]` in `bytesEqual`): `IndexOf`,
+    `LastIndexOf`, `IndexOfIgnoreCase`, `StartsWith` — the precondition of the four theorems above is needed.
+    (Every call site in `runner.go` tests `len(prefix) == 0` / `len(literal) == 0` first, or passes a non-empty
+    string; `findLeadingStringsLeftToRight` calls `StartsWith` unguarded only on its position-by-position path,
+    which the case-sensitive mode takes only when `LeadingPrefixFirstRunes` is empty, i.e. never with ≥ 2 distinct
+    prefixes.) -/
+theorem exact_searches_fault_on_empty_needle (lower : Nat → Nat) (inp : List Nat) :
+    indexOf inp [] = none ∧ lastIndexOf inp [] = none ∧ indexOfIgnoreCase lower inp [] = none ∧
+    startsWith inp [] = none := by
+  refine ⟨rfl, rfl, rfl, ?_⟩
+  simp [startsWith, slice, bytesEqual]
+
+/-- **`helpers.StartsWithIgnoreCase(in, find)`**, relative to `lower` = `unicode.ToLower`: `true` exactly when every
+    rune of `find` equals the rune of `in` at its offset or that rune's `ToLower`; never panics (an empty `find`
+    gives `true`). -/
+theorem startsWithIgnoreCase_spec (lower : Nat → Nat) (inp find : List Nat) :
+    startsWithIgnoreCase lower inp find = some (occursAt (eqLower lower) find inp 0) :=
+  startsWithIgnoreCase_eq lower inp find
+
+example : startsWithIgnoreCase bmLower [65, 98, 120] [97, 98] = some true ∧
+    startsWithIgnoreCase bmLower [97, 98] [65, 98] = some false ∧ startsWithIgnoreCase id [97] [97, 98] = some false ∧
+    startsWithIgnoreCase id [] [] = some true := by decide
+
+/-- **`helpers.Equals(in, start, length, find)`** when the window `in[start : start+length]` lies in the slice and is
+    non-empty unless `find` is empty (`bytesEqual` takes `&a[0]`): `true` exactly when `find` is empty or the window
+    IS `find` (a window of another length is unequal). -/
+theorem equals_spec (inp : List Nat) (start length : Nat) (find : List Nat)
+    (hfit : start + length ≤ inp.length) (hwin : find = [] ∨ 0 < length) :
+    ∃ b, equals inp start length find = some b ∧ (b = true ↔ (find = [] ∨ (inp.drop start).take length = find)) :=
+  ⟨_, equals_eq inp start length find hfit hwin, by simp⟩
+
+example : equals [120, 97, 98] 1 2 [97, 98] = some true ∧ equals [120, 97, 98] 0 2 [97, 98] = some false ∧
+    equals [120, 97, 98] 1 1 [97, 98] = some false ∧ equals [120] 1 0 [] = some true ∧
+    equals [120, 97] 1 2 [97, 98] = none := by decide
+
+/-- **`helpers.EqualsIgnoreCase(in, start, len(find), find)`** when the window lies in the slice (its only caller,
+    `searchvalues.go`, passes `length = len(find)` after testing `len(in)-start >= len(find)`), relative to `lower`:
+    `true` exactly when every rune of `find` equals the window's rune or both have the same `ToLower`.  (The loop
+    ignores `length`: with another `length` it compares `len(find)` runes from `start` all the same.) -/
+theorem equalsIgnoreCase_spec (lower : Nat → Nat) (inp : List Nat) (start : Nat) (find : List Nat)
+    (hfit : start + find.length ≤ inp.length) :
+    equalsIgnoreCase lower inp start find.length find = some (occursAt (eqLowerBoth lower) find inp start) :=
+  equalsIgnoreCase_eq lower inp start find hfit
+
+example : equalsIgnoreCase bmLower [120, 65, 98] 1 2 [97, 66] = some true ∧
+    equalsIgnoreCase bmLower [120, 65, 99] 1 2 [97, 66] = some false ∧ equalsIgnoreCase id [120] 1 0 [] = some true := by
+  decide
+
+/-! ### the finders over the mirrored calls -/
+
+/-- **`findFixedDistanceCharLeftToRight` over the real `IndexOfAny1`**: the finder with the call
+    `helpers.IndexOfAny1(r.Runtext[searchStart:], ch)` spelled out (`-1` ↦ give up, else `searchStart + offset`)
+    is the finder model of `finder_fixedChar_sound`, position by position — so that theorem holds for the loop of
+    `indexof.go`. -/
+theorem finder_fixedChar_uses_indexOfAny1 (c d : Nat) (text : List Nat) (minLen : Nat) (attempt : Nat → Option (Nat × Nat))
+    (hC : ∀ p, p ≤ text.length → attempt p ≠ none → text[p + d]? = some c)
+    (hM : MinLenSound false text.length minLen attempt) :
+    finderFixedCharIx c d text minLen = finderFixedChar c d text minLen ∧
+    FinderSound false text.length (finderFixedCharIx c d text minLen) attempt := by
+  have h : finderFixedCharIx c d text minLen = finderFixedChar c d text minLen :=
+    funext fun pos => finderFixedCharIx_eq c d text minLen pos
+  exact ⟨h, h ▸ finder_fixedChar_sound c d text minLen attempt hC hM⟩
+
+example : finderFixedCharIx 98 1 demoText 2 0 = (true, 1) ∧ finderFixedCharIx 98 1 demoText 2 2 = (true, 3) ∧
+    finderFixedCharIx 98 1 demoText 2 4 = (false, 5) := by decide
+
+/-- **`findFixedDistanceStringLeftToRight` over the real `IndexOf`.** -/
+theorem finder_fixedString_uses_indexOf (lit : List Nat) (d : Nat) (text : List Nat) (minLen : Nat)
+    (attempt : Nat → Option (Nat × Nat))
+    (hC : ∀ p, p ≤ text.length → attempt p ≠ none → occursAt eqExact lit text (p + d) = true)
+    (hM : MinLenSound false text.length minLen attempt) :
+    finderFixedStringIx lit d text minLen = finderFixedString lit d text minLen ∧
+    FinderSound false text.length (finderFixedStringIx lit d text minLen) attempt := by
+  have h : finderFixedStringIx lit d text minLen = finderFixedString lit d text minLen :=
+    funext fun pos => finderFixedStringIx_eq lit d text minLen pos
+  exact ⟨h, h ▸ finder_fixedString_sound lit d text minLen attempt hC hM⟩
+
+example : finderFixedStringIx [97, 98] 1 fdText 3 0 = (true, 1) ∧ finderFixedStringIx [97, 98] 1 fdText 3 2 = (true, 3) ∧
+    finderFixedStringIx [97, 98] 1 fdText 3 4 = (false, 6) := by decide
+
+/-- **`findFixedDistanceSetsLeftToRight` (and `LeadingSet_LeftToRight`) over the real `indexOfSet`**: whichever of
+    `IndexOfAny`, `IndexOfAnyExcept`, `IndexOfAnyInRange`, `IndexOfAnyExceptInRange`, `IndexFunc` the dispatcher
+    selects for the primary set. -/
+theorem finder_fixedSets_uses_indexOfSet (sets : List FDSet) (text : List Nat) (minLen : Nat) (attempt : Nat → Option (Nat × Nat))
+    (hwf : ∃ primary rest, sets = primary :: rest ∧ primary.set.isSome = true)
+    (hS : ∀ p, p ≤ text.length → attempt p ≠ none → fixedSetsMatchAt sets text p = true)
+    (hM : MinLenSound false text.length minLen attempt) :
+    finderFixedSetsIx sets text minLen = finderFixedSets sets text minLen ∧
+    FinderSound false text.length (finderFixedSetsIx sets text minLen) attempt := by
+  have h : finderFixedSetsIx sets text minLen = finderFixedSets sets text minLen :=
+    funext fun pos => finderFixedSetsIx_eq sets text minLen pos
+  exact ⟨h, h ▸ finder_fixedSets_sound sets text minLen attempt hwf hS hM⟩
+
+example : finderFixedSetsIx fdSets fdText 3 0 = (true, 1) ∧ finderFixedSetsIx fdSets fdText 3 4 = (false, 6) := by decide
+
+/-- **`findLeadingStringLeftToRight` over the real `IndexOf` / `IndexOfIgnoreCaseAscii` / `IndexOfIgnoreCase`**
+    (the three-way choice by `ignoreCase` and `isASCIIRunes(prefix)`). -/
+theorem finder_leadingString_uses_indexOf (lower : Nat → Nat) (pat : List Nat) (ignoreCase : Bool) (text : List Nat)
+    (minLen : Nat) (attempt : Nat → Option (Nat × Nat))
+    (hP : ∀ p, p ≤ text.length → attempt p ≠ none → occursAt (stringEq lower ignoreCase pat) pat text p = true)
+    (hM : MinLenSound false text.length minLen attempt) :
+    finderLeadingStringIx lower pat ignoreCase text minLen = finderLeadingString lower pat ignoreCase text minLen ∧
+    FinderSound false text.length (finderLeadingStringIx lower pat ignoreCase text minLen) attempt := by
+  have h : finderLeadingStringIx lower pat ignoreCase text minLen = finderLeadingString lower pat ignoreCase text minLen :=
+    funext fun pos => finderLeadingStringIx_eq lower pat ignoreCase text minLen pos
+  exact ⟨h, h ▸ finder_leadingString_sound lower pat ignoreCase text minLen attempt hP hM⟩
+
+example : finderLeadingStringIx id [97, 98] true ciText 2 0 = (true, 1) ∧
+    finderLeadingStringIx id [97, 98] false ciText 2 0 = (true, 3) ∧
+    finderLeadingStringIx id [97, 98] true ciText 2 4 = (false, 5) := by decide
+
+/-- **`findLiteralAfterLoopLeftToRight` over the real `indexOfLiteralAfterLoop`** (`IndexOf` /
+    `IndexOfIgnoreCaseAscii` / `IndexOfIgnoreCase` for a string, `IndexOfAny` for `Chars`, `IndexOfAny1` for `Char`). -/
+theorem finder_literalAfterLoop_uses_helpers (lower : Nat → Nat) (l : LitAfterLoop) (S : Nat → Bool) (text : List Nat)
+    (minLen : Nat) (attempt : Nat → Option (Nat × Nat))
+    (hset : l.loopSet = some S)
+    (hL : LitAfterLoopFact lower l S text attempt)
+    (hM : MinLenSound false text.length minLen attempt) :
+    finderLiteralAfterLoopIx lower l text minLen = finderLiteralAfterLoop lower l text minLen ∧
+    FinderSound false text.length (finderLiteralAfterLoopIx lower l text minLen) attempt := by
+  have h : finderLiteralAfterLoopIx lower l text minLen = finderLiteralAfterLoop lower l text minLen :=
+    funext fun pos => finderLiteralAfterLoopIx_eq lower l text minLen pos
+  exact ⟨h, h ▸ finder_literalAfterLoop_sound lower l S text minLen attempt hset hL hM⟩
+
+example : finderLiteralAfterLoopIx id lalLit fdText 2 0 = (true, 0) ∧ finderLiteralAfterLoopIx id lalLit fdText 2 3 = (true, 4) ∧
+    finderLiteralAfterLoopIx id lalLit fdText 2 5 = (false, 6) := by decide
+
+/-- **The helper calls of `findLeadingStringsLeftToRight` and of the landmark chain** are the tests and searches
+    their models (`finderLeadingStrings`, `anyPrefixWithFirst`, `lmCore`) use: `StartsWith(r.Runtext[start:], prefix)`
+    for a non-empty prefix and `StartsWithIgnoreCase(r.Runtext[start:], prefix)` are `occursAt` at `start`;
+    `indexOfAnyRunes(r.Runtext[searchAt:latest+1], firstRunes)` (whichever of `IndexOfAny1/2/3`, `IndexOfAny` its
+    `switch` selects) is the specified search for a first rune in `[searchAt, latest]`. -/
+theorem finder_leadingStrings_uses_helpers (lower : Nat → Nat) (text pre firstRunes : List Nat) (s e : Nat)
+    (he : e ≤ text.length) :
+    (pre ≠ [] → startsWith (text.drop s) pre = some (occursAt eqExact pre text s)) ∧
+    startsWithIgnoreCase lower (text.drop s) pre = some (occursAt (eqLower lower) pre text s) ∧
+    absIdx s (indexOfAnyRunes ((text.take e).drop s) firstRunes) =
+      findUp (memAt (fun c => firstRunes.contains c) text) (e - s) s :=
+  ⟨fun hne => startsWith_callsite text pre hne s, startsWithIgnoreCase_callsite lower text pre s,
+   indexOfAnyRunes_callsite text firstRunes s e he⟩
+
+example : startsWith (fdText.drop 2) [97, 98] = some true ∧ startsWithIgnoreCase id (fdText.drop 3) [97, 98] = some false ∧
+    absIdx 1 (indexOfAnyRunes ((fdText.take 5).drop 1) [98, 99]) = some 3 ∧
+    absIdx 4 (indexOfAnyRunes ((fdText.take 5).drop 4) [98, 99]) = none := by decide
+
+end IndexOfHelpers
 
 end RegexVerif.Props.C03
